@@ -87,6 +87,23 @@ def observe(job):
     return case
 
 
+def _enc(c):
+    """the observation as the judge reads it (JSON text without the grammar name)"""
+    return json.dumps({k: v for k, v in c.items() if k != 'grammar'}, separators=(',', ':'))
+
+
+def observe_text(job):
+    """observe() for the pool: (outcome, grammar, JSON text) - the parent keeps text, not objects (memory)"""
+    c = observe(job)
+    return c['outcome'], c['grammar'], _enc(c)
+
+
+def _dec(ent):
+    c = json.loads(ent[2])
+    c['grammar'] = ent[1]
+    return c
+
+
 def _tags(case, verdict):
     """structural predicates of known/fixed findings"""
     tags = []
@@ -105,7 +122,7 @@ def judge(ctx, cases):
         path = os.path.join(ctx.tmp, 'c04_%d.ndjson' % off)
         with open(path, 'w') as f:
             for c in part:
-                f.write(json.dumps({k: v for k, v in c.items() if k != 'grammar'}) + '\n')
+                f.write((c if isinstance(c, str) else _enc(c)) + '\n')
         r = ctx.tlc('llparser/LLTokenizer.tla', 'SPECIFICATION Spec\nCHECK_DEADLOCK FALSE\nINVARIANT Adjacent\nINVARIANT Monotone\n',
                     env={'CASES': path}, workers=16, timeout=3600, heap='12g')
         os.unlink(path)
@@ -142,11 +159,13 @@ def run(ctx):
         if i % 3 == 0:
             jobs.append((t, False, 'all'))
         jobs.append((t, bool(i % 2), 'back'))
-    cases = pmap(observe, jobs)
-    for c in cases:
-        if c['outcome'].startswith('exc:'):
+    cases = pmap(observe_text, jobs, chunk=500)
+    del jobs
+    for ent in cases:
+        if ent[0].startswith('exc:'):
+            c = _dec(ent)
             ctx.violation({'lines': c['lines'], 'aslist': c['aslist'], 'skip': c['skip'], 'grammar': c['grammar']}, 'parse raised %s' % c['outcome'][4:])
-    cases = [c for c in cases if not c['outcome'].startswith('exc:')]
+    cases = [ent for ent in cases if not ent[0].startswith('exc:')]
     # synthetic self-tests
     base = {'lines': [cps('ab 1'), cps(' b')], 'aslist': False, 'skip': ['SPACE'], 'outcome': 'ok', 'errline': 0,
             'leaves': [{'n': 'WORD', 'v': cps('ab'), 's': [1, 1, 1, 3], 'orig': cps('ab')}, {'n': 'NUM', 'v': cps('1'), 's': [1, 4, 1, 5], 'orig': cps('1')},
@@ -159,15 +178,16 @@ def run(ctx):
     bad2 = json.loads(json.dumps(base))
     bad2['nodes'][0]['s'] = [1, 1, 2, 2]
     bad2['nodes'][0]['orig'] = cps('ab 1\n ')
-    allc = cases + [base, bad1, bad2]
+    allc = [ent[2] for ent in cases] + [base, bad1, bad2]
     verd = judge(ctx, allc)
+    del allc
     n = len(cases)
     ctx.selftest(verd[n + 1] == 'ACCEPT' and verd[n + 2].startswith('REJECT') and verd[n + 3].startswith('REJECT'),
                  'LLTokenizer self-test %s' % [verd[n + k] for k in (1, 2, 3)])
     for i in range(1, n + 1):
         v = verd[i]
         if v != 'ACCEPT':
-            c = cases[i - 1]
+            c = _dec(cases[i - 1])
             strs = [''.join(chr(x) for x in ln) for ln in c['lines']]
             ctx.violation({'lines': c['lines'], 'aslist': c['aslist'], 'skip': c['skip'], 'grammar': c['grammar']},
                           'text %r (%s, skip=%s, grammar %s): %s; leaves %s; nodes %s' % (
@@ -178,8 +198,8 @@ def run(ctx):
     ctx.exhaustive = False
     ctx.extra['texts_exhaustive'] = n_exh
     ctx.extra['texts_simulated'] = len(sim)
-    ctx.extra['outcomes'] = {k: sum(1 for c in cases if c['outcome'] == k) for k in ('ok', 'LexicalError', 'ParsingError')}
-    for c in (cases[50], cases[n // 2], cases[-1]):
+    ctx.extra['outcomes'] = {k: sum(1 for ent in cases if ent[0] == k) for k in ('ok', 'LexicalError', 'ParsingError')}
+    for c in (_dec(cases[50]), _dec(cases[n // 2]), _dec(cases[-1])):
         ctx.sample({'lines': [''.join(chr(x) for x in ln) for ln in c['lines']], 'outcome': c['outcome'],
                     'leaves': [(l['n'], l['s']) for l in c['leaves']]})
 
